@@ -21,11 +21,11 @@
 (* every request-level schedule of them; otherwise use -simulate.          *)
 (***************************************************************************)
 EXTENDS Referrers, Json
-CONSTANTS Modes, Caches, Pages, TagDels, SubjSel, Spells, Script, SerialPrefix, ObsPolicy
+CONSTANTS Modes, Caches, Pages, TagDels, SubjSel, Spells, Dopts, Script, SerialPrefix, ObsPolicy
 VARIABLES hist, turn, obsI, needq, fetched, lockq
 gvars == <<dvars, hist, turn, obsI, needq, fetched, lockq>>
 
-GenConfs == ConfSpace(Modes, Caches, Pages, TagDels, SubjSel, Spells)
+GenConfs == ConfSpace(Modes, Caches, Pages, TagDels, SubjSel, Spells, Dopts)
 P1 == <<"p1">>
 P2 == <<"p1", "p2">>
 P3 == <<"p1", "p2", "p3">>
@@ -43,7 +43,7 @@ ScriptPP == << <<"put", "a1">>, <<"put", "a2">>, <<"put", "a1">> >>
 ScriptPPP == << <<"put", "a1">>, <<"put", "a2">>, <<"put", "a3">> >>
 
 SubjSeq == <<"s1", "s2", "a1">>
-FilterSeq == <<"none", "t1", "t2", "x", "y", "k", "none">>
+FilterSeq == <<"none", "t1", "t2", "x", "y", "k", "sa", "sd", "none">>
 ObsSeq == [i \in 1..(Len(SubjSeq) * Len(FilterSeq)) |->
              <<SubjSeq[((i - 1) \div Len(FilterSeq)) + 1], FilterSeq[((i - 1) % Len(FilterSeq)) + 1]>>]
 
